@@ -14,6 +14,29 @@ COMMON_NOTE = ("Trusted: Coq 8.16.1 kernel (coqc full .vo build; vm_compute for 
 
 # id -> (claimed text, level note (specific), design ref)
 CHECKS = {
+    "C01": ("24 theorems (Props/C01.v) about step/run/do_call of the executable kernel model Kernel/Model.v, for all process automata (any "
+            "number of processes, any code table) and all executions: the real run/step/module code only perform kernel transitions; "
+            "agenda invariant (times >= now, distinct keys); clock monotone; an entry takes effect exactly in the step that sets now to "
+            "its time, a timeout created at t0 with delay d >= 0 exactly at t0+d; nothing is skipped when the clock advances; run() "
+            "drains the agenda; pop order = key order with the corollaries same-class FIFO (trigger order) and urgent-first; Initialize, "
+            "Interruption and the numeric-until sentinel are URGENT and everything else NORMAL; a negative delay answers ValueError and "
+            "changes nothing. The model is compared trace by trace with the real onl.sim kernel on 800 (quick) / 12000 (thorough) "
+            "generated script families per run (dyadic delays incl. fine ones 2^-10..2^-16, forced same-instant coincidences).",
+            "Full. Model = repaired kernel (fix bd0bcc6). Trusted besides the common base: CPython generators and heapq (the agenda is "
+            "modelled as 'pop the minimum of pairwise distinct keys'). Executions are considered up to the first exception escaping "
+            "from the middle of a callback loop (DESIGN section 4, hypothesis ii).",
+            "DESIGN.md section 4 C01, section 8"),
+    "C02": ("38 theorems (Props/C02.v) about Kernel/Model.v for all process automata and all (clean) executions: callbacks_exactly_once, "
+            "processed_forever, no_append_after_processing, waiter_unique (also between two callbacks of a step), "
+            "resumed_exactly_once, not_resumed_by_other_events, resume_gets_outcome, value_stable / delivered_is_triggered_outcome, "
+            "yield_processed_continues, trigger_once (succeed / fail / non-exception), process_event_outcome, failure_never_lost, "
+            "undefused_without_handler, only_handlers_defuse, failure_propagates_from_run. The model is compared trace by trace with the "
+            "real kernel on 700 (quick) / 16000 (thorough) script families (45% shaped: opposite-kind double triggers, falsy return "
+            "values, value-0 timeouts, unhandled failures), and an independent delivery-log monitor evaluates the clauses on the real code.",
+            "Clean executions = up to the first exception escaping from the middle of a callback loop. PARTIAL in one respect: stability "
+            "of a Process event's outcome between trigger and processing is checked by the monitor, not proved (it is false under a "
+            "manual succeed() on a live process); condition values are C05's subject.",
+            "DESIGN.md section 4 C02, section 8"),
     "C06": ("15 theorems (C06_users_le_capacity, queue_sorted, rank_meaning, grant_is_head, no_overtaking, free_slot_has_release, "
             "no_idle_slot_at_advance, release_idempotent, release_twice, preempt_call, victim_is_worst_ranked, preempt_request, "
             "evictions_strict, only_preemptive_evicts, users_have_usage_since) hold for Resource/PriorityResource/PreemptiveResource of "
@@ -28,7 +51,7 @@ CHECKS = {
             "That the kernel empties the instant before advancing is C01 and is checked as admissibility of every observed run. One "
             "defect repaired (ffa1b36: preempting a user whose process has ended raised and stranded the preemptor).",
             "DESIGN.md section 4 C06, section 8"),
-    "C07": ("29 theorems (C07_level_bounds, level_conservation, *store_bounded, delivered_exactly_once_*, triggered_at_most_once, "
+    "C07": ("30 theorems (C07_level_bounds, level_conservation, *store_bounded, delivered_exactly_once_*, triggered_at_most_once, "
             "store_fifo, prio_store_min, filter_store_first_match, puts_fcfs, gets_fcfs, filter_overtake_only_nonmatching, "
             "heads_blocked_at_advance + per-kind forms, heappop_min_and_multiset, heappush_multiset, heap_total, and the refutation of "
             "the unrepaired cancel) hold for every capacity, initial level, item/priority/filter and every admissible interleaving of "
@@ -36,7 +59,7 @@ CHECKS = {
             "model is compared with the real Container/Store/PriorityStore/FilterStore after every action on 3000 (quick) / 40000 "
             "(thorough) generated histories per run, each observed execution checked admissible.",
             "Full. Standalone automaton. Assumed: request events are triggered only by the resource; Container 0<=init<=capacity; "
-            "integer priority keys; which of two equal-priority items leaves first is reproduced by the model (heap arrays compared) "
+            "capacity > 0 or infinite as the constructors enforce; integer priority keys; which of two equal-priority items leaves first is reproduced by the model (heap arrays compared) "
             "but is not a theorem. Trusted: the kernel does not advance the clock past a triggered unprocessed event (C01; checked per "
             "observed run). Defects repaired: e27f019 (cancel of a blocking head request did not rescan) and the fractional store "
             "capacity guard (see known_findings.json).",
